@@ -244,7 +244,8 @@ def run(ctx, prop):
         idx = [i for i, o in enumerate(h) if o["op"] == "solve"]
         return h[:idx[0] + 1] if len(idx) >= 2 else None
     bases = [b for b in (first_solve(h) for n, h in zip(reg_names, reg) if n in ("modset", "zerocap", "suspnorelease", "suspstaged")) if b]
-    bases.append(L.annotate(ctx, [L.REGRESSION["suspnorelease"][:5] + [O("solve")]], "b18")[0])
+    extra = L.annotate(ctx, [L.REGRESSION["suspnorelease"][:5] + [O("solve")], L.RICH_BASE], "b18")
+    bases.append(extra[1] if prop != "C18" else extra[0])
     # ---- M (in the background, while the histories are generated)
     from concurrent.futures import ThreadPoolExecutor
     pool_m = ThreadPoolExecutor(max_workers=2)
@@ -261,7 +262,7 @@ def run(ctx, prop):
     ctx.rng.shuffle(pool)
     nb = 2 if quick else 12
     bases_r = [b for b in (cut_after_solve(h, ctx.rng) for h in pool[:nb]) if b]
-    ext_bases = (bases if prop == "C18" else bases[:-1]) + bases_r
+    ext_bases = bases + bases_r
     ext, r_ext = L.extensions(ctx, ext_bases, ext_params(prop, par), "ext", timeout=900 if quick else 2400)
     fam["extensions"] = ext
     vlib.log("%s: generation %.1fs (%d random, %d extensions)" % (prop, time.time() - t0, len(rnd), len(ext)))
